@@ -67,6 +67,8 @@ TNext ==
          [] e.a = "end" ->
               LET good == {s \in ss : EndClause(s, e) = "ok"} IN
               IF good = {} THEN Reject(EndClause(CHOOSE s \in ss : TRUE, e))
+              ELSE IF \A s \in good : s.kf
+                   THEN Reject("known_clear_keeps_gosub_stack")      \* explained only by the listed deviation
               ELSE ss' = {} /\ dead' = TRUE /\ viol' = viol
 
 TInit == ss = {} /\ dead = TRUE /\ l = 1 /\ viol = <<>>
